@@ -1,4 +1,4 @@
-SPECIFICATION Spec
+SPECIFICATION SimSpec
 CONSTANTS
   WorkerCpus <- A_Workers
   Menu <- A_Menu
@@ -9,7 +9,7 @@ CONSTANTS
   MaxLaunchFails = 0
   PfReserve = 0
   PfMax = 1
-  Eager = TRUE
+  Eager = FALSE
 CHECK_DEADLOCK FALSE
 INVARIANTS
   NoPanic
@@ -40,7 +40,3 @@ INVARIANTS
   C13_CompletedOnce
   C14_AbortAllOnExceed
   C14_ExceededStopped
-  C01_OutcomeAtRest
-  C02_QuiescentOk
-PROPERTIES
-  StepProps
